@@ -93,9 +93,9 @@ def check_model(ctx, out, rule="C08.model"):
                 out.viol(rule, "%s|%s|verdict" % (rule, "".join(c[0] for c in case)), ctx.where(vb),
                          "%s: violations are built for content line index(es) %s; expected %s (a violation exactly when some non-blank line does not match, designating the first such line)"
                          % (desc, sorted(rep.reported) or "none", sorted(want) or "none"))
-        elif want and any(k == 0 for k in rep.ends):
+        elif want and any(k == 0 and not (seen_idx & want) for k, seen_idx in rep.ends):
             out.viol(rule, "%s|%s|passed-over" % (rule, "".join(c[0] for c in case)), ctx.where(vb),
-                     "%s: on some path the block is left for the next one without the violation being built - a block can be passed over although one of its lines fails the pattern" % desc)
+                     "%s: on some path the block is left for the next one without the violation being built - a block can be passed over (its offending line is never even located) although one of its lines fails the pattern" % desc)
         else:
             n += 1
     if undecided:
@@ -241,7 +241,10 @@ def run(ctx, out, tier):
     news = [(bi, t) for bi, t in vb.calls() if callee_matches(t, r"regex::Regex::new$")]
     for bi, t in news:
         la = ctx.prov.read_operand(vb, t["args"][0])
-        calls = sorted({l[1] for l in la if l[0] == "call" and not re.search(r"HashMap::<K, V, S, A>::get$|Deref>?::deref$|Iterator>?::next$|IntoIterator>?::into_iter$", l[1])})
+        # the pattern is the attribute's text as written: whatever containers / iterators the block travelled
+        # through, no call that changes a string lies between the attribute and the compilation
+        calls = sorted({l[1] for l in la if l[0] == "call" and re.search(
+            r"<impl str>::(trim\w*|strip_\w+|to_\w+case|to_lowercase|to_uppercase|replace\w*|split\w*|get|lines|chars|repeat|escape_\w+)$|Index<.*> for str>::index$|string::String::(push\w*|insert\w*|truncate|remove|replace_range|retain|drain)$|alloc::fmt::format|regex::escape$|Cow<.*>::(into_owned|to_mut)$|ops::Add<&str>>::add$", l[1])})
         if P.has_const(la, NAME) and not calls:
             n_pat += 1
         else:
